@@ -1,7 +1,7 @@
 """C01 — Accepted programs never go wrong (type soundness).
 
-Proofs: lean/Props/C01.lean (soundness + preservation of the checker XrayModel/CoreTyping.lean over the core evaluator
-XrayModel/Core.lean).
+Proofs: lean/Props/C01.lean (natives_sound, soundness, preservation of the checker XrayModel/CoreTyping.lean over the core
+evaluator XrayModel/Core.lean; all full).
 Tie (what no model can replace):
  (a) generated core programs and near-miss mutations of them: accept/reject of the real compiler vs the Lean checker
      (engine `typing check`), the accepted ones run three ways (implementation / Lean core model / Python reference
@@ -168,12 +168,21 @@ GEN = lambda t: ('N', 'Generator', [t])
 OPT = lambda t: ('N', 'Optional', [t])
 
 INT_EDGES = ["0", "1", "(-1)", "2", "3", "7", "10", "63", "64", "100", "1000000", "2**31", "2**31-1", "(-(2**31))",
-             "2**63-1", "2**63", "(-(2**63))", "2**64", "2**64+1", "(-(2**64))", "10**30", "(-(10**30))"]
+             "2**63-1", "2**63", "(-(2**63))", "(-(2**63))-1", "2**64", "2**64-1", "2**64+1", "(-(2**64))", "2**127", "10**30", "(-(10**30))"]
 INT_SMALL = ["0", "1", "(-1)", "2", "3", "5", "7"]
-FLOAT_EDGES = ["0.0", "1.0", "(-1.5)", "0.5", "2.0", "3.14", "1e308", "1e-300", "1e18", "(-0.0)", "100.0"]
+FLOAT_EDGES = ["0.0", "1.0", "(-1.5)", "0.5", "2.0", "3.14", "1e308", "(-1e308)", "1e-300", "5e-324", "1e-320", "1e18", "(-0.0)", "100.0",
+               "9007199254740993.0", "0.1"]
 STR_EDGES = ['""', '"a"', '"abc"', '"é"', '"aİb"', '"日本語"', '" x "', '"12"', '"-5"', '"a,b,c"', '"{}"', '"%d"', '"ß"',
-             '"1e5"', '"A b"', '("ab"*1000)', '"\\n"', '"(a+)"', '"["']
+             '"1e5"', '"A b"', '("ab"*1000)', '"\\n"', '"(a+)"', '"["', '"İ"', '"ŉǰ"', '"ﬃ"', '"e\\u{301}"', '"👋a"', '"Straße"', '"ǅ"',
+             '"0x1F"', '" 7 "', '"1_000"', '"{0}{1}"', '"%Y-%m-%d"']
 HASHABLE = ('int', 'str', 'bool')
+
+
+LIB_PRELUDE_FNS = {
+    'int': 'e_int', 'str': 'e_str', 'float': 'e_float', 'bool': 'e_bool',
+}
+LIB_PRELUDE = ("fn e_int()->int{error('e')}\nfn e_str()->str{error('e')}\nfn e_float()->float{error('e')}\nfn e_bool()->bool{error('e')}\n")
+
 
 
 class Pool:
@@ -184,8 +193,15 @@ class Pool:
         self.producers = producers     # type text -> [(fname, [param types])]
 
     def pick(self, t, depth=0, small=False):
+        return self._pick(t, depth, small, True)
+
+    def _pick(self, t, depth=0, small=False, inject=False):
         rng = self.rng
-        if depth < 3 and rng.random() < 0.04:
+        if inject and depth < 3 and rng.random() < 0.04:
+            if depth == 0 and isinstance(t, str) and t in LIB_PRELUDE_FNS:
+                return LIB_PRELUDE_FNS[t] + '()'
+            if depth == 0:
+                return None if isinstance(t, str) else self._pick(t, depth, small)
             return 'error("e")'
         if t == 'int':
             return rng.choice(INT_SMALL if small or rng.random() < 0.45 else INT_EDGES)
@@ -214,9 +230,11 @@ class Pool:
             e = args[0]
             r = rng.random()
             if e == 'int' and r < 0.15:
-                return 'count().to_generator()'
+                return rng.choice(['count().to_generator()', 'count().to_generator().map((x: int)->{x+1})', '[1].repeat().to_generator()',
+                                   'count().to_generator().filter((x: int)->{x % 1000 == 999})'])
             if e == 'int' and r < 0.25:
-                return 'successors(0, (x: int)->{x+1})'
+                return rng.choice(['successors(0, (x: int)->{x+1})', 'successors(1, (x: int)->{x*2})', 'range(0).to_generator()',
+                                   'count().to_generator().take(0)', 'range(3).to_generator().skip(5)'])
             return self.seq(e, depth, finite=r < 0.8) + '.to_generator()'
         if name == 'Optional':
             if rng.random() < 0.35:
@@ -263,12 +281,14 @@ class Pool:
         rng = self.rng
         r = rng.random()
         if e == 'int' and not finite:
-            if r < 0.08:
-                return 'count()'
-            if r < 0.12:
-                return 'range(1000000)'
-            if r < 0.16:
-                return '[1, 2].repeat()'
+            if r < 0.06:
+                return rng.choice(['count()', 'count().map((x: int)->{x*x})', 'count(2**63, 2**63)', 'count().skip(2**63)', 'count() + [1]'])
+            if r < 0.10:
+                return rng.choice(['range(1000000)', 'range(2**63)', 'range((-(2**63)), 2**63-1)', 'range(0, 2**64, 2**62)'])
+            if r < 0.14:
+                return rng.choice(['[1, 2].repeat()', '[1].repeat(2**63)', '[].repeat()'])
+            if r < 0.18:
+                return rng.choice(['range(0).map((x: int)->{x})', '[1, 2].take(0)', 'range(5).skip(7)', 'range(3, 3)'])
         if e == 'int':
             if r < 0.28:
                 return rng.choice(['range(5)', 'range(0)', 'range(3, 10, 2)', 'range(5, 0, (-1))'])
@@ -500,7 +520,7 @@ def panic_key(kind, detail):
     return kind
 
 
-def run_bindings(chk, items, limits, tag, chunk=24, with_types=True):
+def run_bindings(chk, items, limits, tag, chunk=24, with_types=True, prelude=LIB_PRELUDE):
     """items: [(label, expr, forcing suffix or None)] each run as `let r<j> = expr;` (+ `let s<j> = force;`).
     Batched; a batch that fails as a whole is re-run one item per program. Returns per item
     dict(outcome=ok|compile|viol|panic|abort|hang, dump, forced, type, detail, src)."""
@@ -515,7 +535,7 @@ def run_bindings(chk, items, limits, tag, chunk=24, with_types=True):
             if items[j][2]:
                 lines.append(f"let s{j} = {items[j][2].replace('$', f'r{j}')};")
                 names.append(f"s{j}")
-        return {"op": "typing", "f": "run", "src": "\n".join(lines) + "\n", "get": names, "types": names if with_types else [], "limits": limits}
+        return {"op": "typing", "f": "run", "src": prelude + "\n".join(lines) + "\n", "get": names, "types": names if with_types else [], "limits": limits}
 
     def settle(j, r, req):
         f = fail_of(r)
@@ -651,12 +671,6 @@ def report_failure(chk, tag, label, r, extra=None):
     chk.violation(f"{tag}:{kind}:{where}",
                   f"the interpreter itself failed on a program the compiler accepted ({label}): {kind} {r['detail'][:200]}; program: {r['src'][:300]!r}",
                   replay)
-
-
-LIB_PRELUDE_FNS = {
-    'int': 'e_int', 'str': 'e_str', 'float': 'e_float', 'bool': 'e_bool',
-}
-LIB_PRELUDE = ("fn e_int()->int{error('e')}\nfn e_str()->str{error('e')}\nfn e_float()->float{error('e')}\nfn e_bool()->bool{error('e')}\n")
 
 
 def library_search(chk, per_overload):
@@ -962,6 +976,24 @@ class Mutator:
         return out
 
     @staticmethod
+    def get(tree, path):
+        for k in path:
+            tree = tree[k]
+        return tree
+
+    @staticmethod
+    def allowed(fname):
+        """replacement arguments for a call of `fname` that the real library does not give a meaning either"""
+        lits = [('i', 5), ('b', True), ('s', 'zz'), ('tup', [('i', 1)])]
+        if fname in ('to_str', 'display', 'eq', 'ne'):
+            return lits[:3]
+        if fname == 'len':
+            return [lits[0], lits[1]]
+        if fname in ('mul', 'add', 'lt', 'le', 'gt', 'ge'):
+            return [lits[1], lits[3]]           # (str * int, str + str, ordering of strings exist in the library)
+        return lits
+
+    @staticmethod
     def put(tree, path, new):
         if not path:
             return new
@@ -992,17 +1024,25 @@ class Mutator:
                     continue
                 j = rng.randrange(len(d[2]))
                 p = d[2][j]
-                new_t = rng.choice([t for t in ('int', 'bool', 'str') if t != p[1]])
+                # a function type: the library gives no meaning to comparing / printing / adding functions, whereas every
+                # primitive type has its own `<=`, `==`, `to_str` .. outside the fragment
+                new_t = ('fn', [], 'int')
+                if p[1] == new_t:
+                    continue
                 ps = list(d[2])
                 ps[j] = (p[0], new_t, p[2])
                 return ds[:i] + [(d[0], d[1], ps, d[3], d[4], d[5])] + ds[i + 1:], kind
             path, e = rng.choice(nodes)
             new = None
+            # the natives of the fragment are wider in the real library (len/mul on strings, display with a second argument,
+            # to_str/eq/ne on tuples ..): a mutant must stay outside those extra signatures to be a near miss of the *fragment*
+            parent = self.get(ds, path[:-2]) if len(path) >= 2 and path[-2] == 2 else None
+            pname = parent[1] if (parent is not None and parent[0] == 'c') else None
             if kind == 'arg-type' and e[0] in ('c', 'ce') and e[2]:
                 i = rng.randrange(len(e[2]))
                 a = e[2][i]
                 # (to_str / display / eq / ne of a tuple are library functions outside the modelled fragment)
-                repl = rng.choice([('i', 5), ('b', True), ('s', 'zz')] + ([] if e[1] in ('to_str', 'display', 'eq', 'ne') else [('tup', [('i', 1)])]))
+                repl = rng.choice(self.allowed(e[1] if e[0] == 'c' else None))
                 if a[0] in OTHER_LIT and repl[0] == a[0]:
                     continue
                 args = list(e[2])
@@ -1012,12 +1052,14 @@ class Mutator:
                 args = list(e[2])
                 del args[rng.randrange(len(args))]
                 new = (e[0], e[1], args)
-            elif kind == 'extra-arg' and e[0] in ('c', 'ce'):
+            elif kind == 'extra-arg' and e[0] in ('c', 'ce') and not (e[0] == 'c' and e[1] in ('display', 'to_str', 'len', 'error', 'if_error')):
                 new = (e[0], e[1], list(e[2]) + [rng.choice([('i', 1), ('b', False), ('s', 'x')])])
             elif kind == 'item-range' and e[0] == 'item':
                 new = ('item', e[1], e[2] + rng.choice([1, 2, 3, 7]))
             elif kind == 'lit-type' and e[0] in OTHER_LIT:
                 new = rng.choice(OTHER_LIT[e[0]])
+                if new[0] not in [r[0] for r in self.allowed(pname)]:
+                    continue
             elif kind == 'unbound' and e[0] == 'v':
                 new = ('v', e[1] + '_nope')
             elif kind == 'call-nonfn' and e[0] == 'v':
@@ -1067,7 +1109,7 @@ def core_part(chk, n_prog, n_mut):
             chk.violation("tie:typing:bad-op", "the Lean checker could not read a generated program: " + tsx_program(ds)[:300], {"model_request": tsx_program(ds)}, no_input=True)
             continue
         if racc:
-            accepted.append((ds, tag, src, macc))
+            accepted.append((ds, tag, src, macc, r.get("types", {})))
             chk.nontrivial.add(src)
         if racc != macc:
             # who is right is decided by running the program (below) when the compiler accepted it
@@ -1087,10 +1129,20 @@ def core_part(chk, n_prog, n_mut):
                                   {"src": src, "binding": n, "compiler": r["types"].get(n), "checker": mt.get(n)}, no_input=True)
     # --- accepted programs: run three ways under the limit sweep; nothing may panic, abort or get stuck
     runs = []
-    for ds, tag, src, macc in accepted:
+    static_types = {}
+    for ds, tag, src, macc, rtypes in accepted:
         sweep = CORE_SWEEP if tag == "generated" else [CORE_SWEEP[0], rng.choice(CORE_SWEEP[1:])]
         for (d, c, rc) in (sweep if chk.tier != "quick" else [sweep[0]] + rng.sample(sweep[1:], min(2, len(sweep) - 1))):
-            runs.append(Case(ds, "accepted-" + tag.split(":")[0], depth=d, calls=c, rec=rc, printer_rng=rng, model=True))
+            if tag == "generated":
+                # all spellings (sugar, redundant parentheses, optional annotations = the generator's types) denote this program
+                case = Case(ds, "accepted-generated", depth=d, calls=c, rec=rc, printer_rng=rng, model=macc)
+            else:
+                # a mutant is run in exactly the text the compiler accepted (its `let` types are no longer the generator's)
+                # (the core model is only asked about programs of its fragment = accepted by the Lean checker; an accept/reject
+                # disagreement has already been reported above)
+                case = Case(ds, "accepted-near-miss", depth=d, calls=c, rec=rc, src=src, model=macc)
+            static_types[id(case)] = rtypes
+            runs.append(case)
     res = three_way(chk, runs, "c01", nontrivial=None)
     for c, ci, cm, co, ev in res:
         o = ci["outcome"]
@@ -1101,16 +1153,21 @@ def core_part(chk, n_prog, n_mut):
             chk.violation("core:model-stuck", f"the core model gets stuck on a program the compiler accepted: {cm['outcome']}; program={c.src[:300]!r}",
                           c.replay({"model": cm}), no_input=True)
         if ci["outcome"] == "ok":
-            # (c) shape against the generator's type (the type the program was generated at)
-            tys = {d[1]: d[3] for d in c.ds if d[0] == 'let'}
+            # (c) shape against the static type the compiler reported for the binding
+            tys = static_types.get(id(c), {})
             for n, dump in ci["vals"].items():
-                t = tys.get(n)
-                if t is None or dump is None:
+                tt = tys.get(n)
+                if tt is None or tt.startswith("!") or dump is None:
+                    continue
+                try:
+                    t = parse_type(tt)
+                except ValueError:
+                    chk.count("shape:unparsed-type")
                     continue
                 chk.count("shape:checked")
-                why = shape_ok(parse_dump(dump.replace("(int ", "(int S ")), core_ty(t))
+                why = shape_ok(parse_dump(dump.replace("(int ", "(int S ")), t)
                 if why:
-                    chk.violation("shape:core", f"binding {n} does not have the shape of its type {cg.ty_str(t)}: {why}; dump {dump[:200]}", c.replay({"binding": n}))
+                    chk.violation("shape:core", f"binding {n} does not have the shape of its static type {tt}: {why}; dump {dump[:200]}", c.replay({"binding": n, "static_type": tt}))
     for c, ci, cm, co, ev in res[:2]:
         chk.sample({"program": c.src, "limits": limits_json(c.depth, c.calls, c.rec), "impl": ci["outcome"]})
 
@@ -1185,11 +1242,11 @@ def run(chk):
     t0 = time.time()
     run_corpus(chk)
     t1 = time.time()
-    core_part(chk, 60 if quick else 1500, 240 if quick else 8000)
+    core_part(chk, 60 if quick else 600, 240 if quick else 3000)
     t2 = time.time()
-    library_search(chk, 2 if quick else 12)
+    library_search(chk, 2 if quick else 8)
     t3 = time.time()
-    script_search(chk, 500 if quick else 12000)
+    script_search(chk, 500 if quick else 6000)
     chk.coverage["seconds"] = {"corpus": round(t1 - t0, 1), "core": round(t2 - t1, 1), "library": round(t3 - t2, 1), "scripts": round(time.time() - t3, 1)}
     return chk.finish(rule="(a) generated core programs + near-miss mutants (one node changed: argument type, dropped/extra argument, index out of range, literal "
                            "type, unbound name, call of a non-function, condition type, declared result/parameter type): accept/reject and static types of the real "
